@@ -26,6 +26,7 @@ UNITS = {
             "KademliaRoutingTable": (None, {"node_id": "NodeId", "buckets": "Vec<KBucket>", "_k_value": "usize"}),
             "KBucket": (None, {"nodes": "Vec<NodeInfo>", "max_size": "usize"}),
             "NodeInfo": (None, {"id": "NodeId"}),
+            "DhtCoreEngine": (None, {}),
         },
         "items": [
             {"impl": "KademliaRoutingTable", "fn": "get_bucket_index",
@@ -164,6 +165,35 @@ UNITS = {
         old(self).buckets@.len() == 256,
     ensures
         table_remove_step(old(self), final(self), *node_id), // @C02/table/remove_step_touches_only_the_bucket_of_the_first_differing_bit
+"""},
+            {"impl": "DhtCoreEngine", "fn": "handle_node_failure", "erase_errors": ["P2PError::"],
+             "block": {"name": "verif_critical_section_node_failure", "of": "DhtCoreEngine::handle_node_failure",
+                       "sig": "fn verif_critical_section_node_failure(routing: &mut KademliaRoutingTable, failed_node: NodeId) -> Result<()>",
+                       "why": "the body of handle_node_failure; both awaits are lock acquisitions (routing table, then the replication manager guard, which is only held)"},
+             "drop": [r"let mut routing = self\.routing_table\.write\(\)\.await;\n", r"let _replication = self\.replication_manager\.write\(\)\.await;\n"],
+             "insert_after": [(r"routing\.remove_node\(&failed_node\);", None, "proof { lemma_table_remove(old(routing), routing, failed_node); }")],
+             "spec": """
+    requires
+        old(routing).wf(),
+    ensures
+        final(routing).wf(),
+        !final(routing).lists(failed_node), // @C16/route/a_failed_peer_is_no_longer_listed_in_the_routing_table
+        forall|q: NodeId| q != failed_node ==> final(routing).lists(q) == old(routing).lists(q), // @C16/route/a_failure_removes_no_other_peer
+"""},
+            {"impl": "DhtCoreEngine", "fn": "evict_node", "drop_macros": ["tracing::info!", "tracing::warn!"],
+             "block": {"name": "verif_critical_section_evict", "of": "DhtCoreEngine::evict_node",
+                       "start": r"\{(?=\s*let mut routing = self\.routing_table\.write\(\)\.await;\s*routing\.remove_node)",
+                       "sig": "fn verif_critical_section_evict(routing: &mut KademliaRoutingTable, node_id: &NodeId)",
+                       "why": "step 1 of evict_node: the block under the routing-table write guard"},
+             "drop": [r"let mut routing = self\.routing_table\.write\(\)\.await;\n"],
+             "insert_after": [(r"routing\.remove_node\(node_id\);", None, "proof { lemma_table_remove(old(routing), routing, *node_id); }")],
+             "spec": """
+    requires
+        old(routing).wf(),
+    ensures
+        final(routing).wf(),
+        !final(routing).lists(*node_id), // @C16/route/an_evicted_peer_is_no_longer_listed_in_the_routing_table
+        forall|q: NodeId| q != *node_id ==> final(routing).lists(q) == old(routing).lists(q), // @C16/route/eviction_removes_no_other_peer
 """},
         ],
         "consts_verbatim": ["KADEMLIA_BUCKET_COUNT"],
@@ -330,6 +360,7 @@ UNITS = {
 """},
         ],
         "paired_kani": ["c12_validate_internal"],
+    "search_test": "verif_search_c12",
         "trusted": [
             "verus external_body: PeerCounter::has_seen_sequence ensures r == seen(..) (proved on the real fn by Kani, bounded history length)",
             "verus external_body: current_timestamp() < 2^48 (clock; machine arithmetic on time does not overflow)",
@@ -1014,7 +1045,7 @@ UNITS["select"] = {
                            (r"return vec!\[\];", None, "proof { lemma_empty_selection(self, config, candidates@, count, Seq::<NodeInfo>::empty()); }")],
          "outline_tail": {
              "start": r"scored\.sort_by\(",
-             "fn": "verif_sorted_selection", "params": "scored: Vec<Scored>, count: usize", "ret": "Vec<NodeInfo>",
+             "expect_sha": "6775f1e275cfa676", "fn": "verif_sorted_selection", "params": "scored: Vec<Scored>, count: usize", "ret": "Vec<NodeInfo>",
              "prelude": "    let mut scored = scored;",
              "spec": "    ensures tail_post(scored@, count, r@)",
              "call": """let ghost sc = scored@;
@@ -1158,9 +1189,86 @@ UNITS["pending"] = {
 """},
     ],
     "paired_kani": [],
+    "search_test": "verif_search_c04",
     "trusted": [
         "block outlining: three critical sections (handle_dht_response body, /rr/ reply branch, send_request registration block) verified as functions of the guarded maps; lock-acquisition statements dropped; that the guards serialise callers is the contract of std::sync::Mutex / tokio::sync::RwLock (assumed)",
         "ASSUMED shim contracts: HashMap<String, V> get / get_mut / remove / insert / len behave as a finite map; [T]::contains is membership by ==; String ==, clone, to_string preserve the character sequence; oneshot::Sender::send consumes the sender (opaque)",
         "logging macro statements dropped; error payloads dropped; `continue` of the receive loop written as `return` in the outlined /rr/ block; `Ok(())` appended to the registration block",
     ],
 }
+
+_AWAIT_GUARDS = [
+    (r"self\.close_group_validator\.read\(\)\.await", "validator_g", "lock acquisition `self.close_group_validator.read().await` replaced by the parameter that stands for the guarded object"),
+    (r"let mut enforcer = self\.ip_diversity_enforcer\.write\(\)\.await;", "let enforcer = &mut *ip_g;", "lock acquisition replaced by a reborrow of the parameter that stands for the guarded IP diversity enforcer"),
+    (r"self\s*\.ip_diversity_enforcer\s*\.write\(\)\s*\.await", "ip_g", "lock acquisition expression replaced by the parameter that stands for the guarded IP diversity enforcer"),
+    (r"let mut enforcer = self\.geographic_diversity_enforcer\.write\(\)\.await;", "let enforcer = &mut *geo_g;", "lock acquisition replaced by a reborrow of the parameter that stands for the guarded geographic enforcer"),
+    (r"self\s*\.geographic_diversity_enforcer\s*\.write\(\)\s*\.await", "geo_g", "lock acquisition expression replaced by the parameter for the guarded geographic enforcer"),
+    (r"let mut routing = self\.routing_table\.write\(\)\.await;", "let routing = &mut *routing_g;", "lock acquisition replaced by a reborrow of the parameter that stands for the guarded routing table"),
+]
+UNITS["ipdiv"]["shims"]["GeographicDiversityEnforcer"] = ("src/dht/core_engine.rs", {"region_counts": "HashMap<GeographicRegion, usize>", "max_per_region": "usize"})
+UNITS["ipdiv"].setdefault("enums_from", []).append(("src/dht/geographic_routing.rs", "GeographicRegion"))
+UNITS["ipdiv"]["items"] += [
+    {"impl": "GeographicDiversityEnforcer", "fn": "can_accept", "src": "src/dht/core_engine.rs",
+     "spec": """
+    ensures
+        r == (geo_cnt(self.region_counts@, region) < self.max_per_region), // @C13/geo/region_admits_iff_below_its_cap
+"""},
+    {"impl": "GeographicDiversityEnforcer", "fn": "add", "src": "src/dht/core_engine.rs",
+     "rewrite": [(r"\*self\.region_counts\.entry\(region\)\.or_insert\(0\) \+= 1;", "verif_count_inc(&mut self.region_counts, region);", "`*map.entry(k).or_insert(0) += 1` renamed to a shim fn standing for that statement (contract: the count under k grows by one, assumed)")],
+     "spec": """
+    requires
+        geo_cnt(old(self).region_counts@, region) < usize::MAX,
+    ensures
+        geo_cnt(final(self).region_counts@, region) == geo_cnt(old(self).region_counts@, region) + 1,
+        forall|g: GeographicRegion| g != region ==> geo_cnt(final(self).region_counts@, g) == geo_cnt(old(self).region_counts@, g),
+        final(self).max_per_region == old(self).max_per_region,
+"""},
+    {"impl": "GeographicDiversityEnforcer", "fn": "remove", "src": "src/dht/core_engine.rs",
+     "rewrite": [(r"self\.region_counts\.get_mut\(&region\)", "verif_geo_get_mut(&mut self.region_counts, &region)", "callee renamed to a shim fn standing for HashMap::get_mut")],
+     "spec": """
+    ensures
+        geo_cnt(final(self).region_counts@, region) == (if geo_cnt(old(self).region_counts@, region) > 0 { geo_cnt(old(self).region_counts@, region) - 1 } else { 0 }),
+        forall|g: GeographicRegion| g != region ==> geo_cnt(final(self).region_counts@, g) == geo_cnt(old(self).region_counts@, g),
+        final(self).max_per_region == old(self).max_per_region,
+"""},
+    {"impl": "DhtCoreEngine", "fn": "add_node", "src": "src/dht/core_engine.rs",
+     "drop_macros": ["tracing::warn!", "tracing::debug!", "tracing::error!", "tracing::info!"],
+     "block": {"name": "verif_add_node_sequential", "of": "DhtCoreEngine::add_node",
+               "sig": "fn verif_add_node_sequential(validator_g: &CloseGroupValidator, ip_g: &mut IPDiversityEnforcer, geo_g: &mut GeographicDiversityEnforcer, routing_g: &mut KademliaRoutingTable, node: NodeInfo) -> Result<()>",
+               "why": "await erasure: every .await of add_node is a tokio RwLock acquisition; each guarded object became a parameter"},
+     "rewrite": _AWAIT_GUARDS + [
+         (r"crate::security::UnifiedIPAnalysis", "UnifiedIPAnalysis", "path shortened (the type is declared in this unit)"),
+         (r"anyhow::anyhow!\((?:[^()]|\([^()]*\))*\)", "VerifError {}", "error value: the message text of anyhow!(..) is dropped"),
+         (r"if let Ok\(socket\) = node\.address\.parse::<SocketAddr>\(\) \{\s*Some\(socket\.ip\(\)\)\s*\} else \{\s*node\.address\.parse::<IpAddr>\(\)\.ok\(\)\s*\}", "if let Some(sip) = verif_parse_socket_ip(&node.address) { Some(sip) } else { verif_parse_ip(&node.address) }", "address parsing (`parse::<SocketAddr>()` / `parse::<IpAddr>()`) renamed to opaque shim fns: some address or none"),
+         (r"\.map_err\(\|e\| \{\s*VerifError \{\}\s*\}\)\?;", ".map_err(|e: VerifError| -> (ret: VerifError) { VerifError {} })?;", "closure given parameter/return types (after the logging statement inside it was dropped)"),
+     ],
+     "spec": """
+    requires
+        old(ip_g).cfg_ok(), old(ip_g).inv(), old(ip_g).country_room(),
+        forall|g: GeographicRegion| geo_cnt(old(geo_g).region_counts@, g) < usize::MAX,
+    ensures
+        r.is_err() ==> final(ip_g).same_counts(old(ip_g)), // @C13/engine/an_admission_that_fails_part_way_returns_its_ip_diversity_slots
+        r.is_err() ==> final(geo_g).same_region_counts(old(geo_g)), // @C13/engine/an_admission_that_fails_part_way_returns_its_region_slot
+        final(ip_g).same_settings(old(ip_g)),
+"""},
+]
+
+UNITS["ipdiv"]["trusted"] += [
+    "await erasure (DhtCoreEngine::add_node): every .await in that function is the acquisition of a tokio RwLock guard; each guarded object became a parameter of the extracted sequential body; the four guards are assumed to be independent objects and to serialise callers",
+    "ASSUMED opaque callees of add_node: CloseGroupValidator::validate, KademliaRoutingTable::add_node (contract in unit bucket), IPDiversityEnforcer::analyze_unified, GeographicRegion::from_ip, address parsing return some value and touch nothing else; HashMap<GeographicRegion, usize> via vstd (+ entry/or_insert and get_mut shims); std::net::IpAddr opaque",
+]
+
+UNITS["seq"]["items"].append(
+        {"impl": "MonotonicCounterSystem", "fn": "cleanup_old_sequences", "erase_errors": ["P2PError::"],
+         "block": {"name": "verif_critical_section_cleanup", "of": "MonotonicCounterSystem::cleanup_old_sequences",
+                   "sig": "fn verif_critical_section_cleanup(&self, counters: &mut HashMap<UserId, PeerCounter>) -> Result<()>",
+                   "no_await": True,
+                   "why": "`async fn` without any `.await` (checked); `counters` stands for the map behind the std RwLock write guard"},
+         "drop": [r"let mut counters = self\.counters\.write\(\)\.map_err\(\|_\| \{\s*P2PError::Storage\(StorageError::LockPoisoned\(\s*\"write lock failed\"\.to_string\(\)\.into\(\),\s*\)\)\s*\}\)\?;\n"],
+         "rewrite": [(r"MAX_SEQUENCE_AGE\.as_secs\(\)", "@MAX_SEQUENCE_AGE@u64", "Duration const -> its seconds, value re-derived from the const definition"),
+                     (r"for \(_, peer_counter\) in counters\.iter_mut\(\) \{\s*peer_counter\.cleanup_old_sequences\(cutoff_time\);\s*\}", "verif_cleanup_every_peer(counters, cutoff_time);",
+                      "the `for .. in counters.iter_mut()` statement (outside the dialect) renamed to a shim fn standing for exactly that statement (ASSUMED contract: applies the verified per-peer cleanup to every value, adds / removes no entry)")],
+         "spec": """
+    ensures
+        marks_kept(old(counters)@, final(counters)@), // @C12/system/cleanup_never_forgets_a_peer_or_its_high_water_mark
+"""})
